@@ -25,6 +25,8 @@ PROPERTY = "C10"
 # rich 9.10.0 as found are repaired there (BARE_BYPASS: 0 is the repaired value; START_GUARD, RESET_SHAPE: 1 is the repaired value)
 BARE_BYPASS = 0   # 1: console.print()/log() without arguments call Console.line() and bypass the render hooks (F19, as found); 0: repaired, fix b373465
 START_GUARD = 1   # 0: as found, Progress.start() calls refresh() unprotected after installing hook / redirection / hidden cursor; 1: repaired, fix 4e4f7e5
+BLANK_FIX = 0     # 0: restore_cursor() goes up `height` rows: a transient display with an empty last frame leaves a blank line
+FLUSH_FIX = 0     # 0: stop() does not flush the FileProxy objects before its last refresh: text pending from print(..., end="") is written after the last frame
 RESET_SHAPE = 1   # 0: as found, stop() keeps _live_render._shape, so a later start() erases rows of finished output; 1: repaired, fix b4577f9
 
 
@@ -32,15 +34,20 @@ RESET_SHAPE = 1   # 0: as found, stop() keeps _live_render._shape, so a later st
 # independent specification tracker (what must be on the screen) — shares nothing with the Lean model
 # ------------------------------------------------------------------------------------------------
 class Tracker:
-    def __init__(self, cfg, reset_shape=None):
+    def __init__(self, cfg, reset_shape=None, blank_fix=True):
         self.cfg = cfg
+        self.blank_fix = blank_fix   # True: the specification (a transient display leaves nothing); False: what today's code leaves
         self.reset_shape = RESET_SHAPE if reset_shape is None else reset_shape
         self.P = []            # printed lines, in order
         self.F = []            # frame on display (as the user should see it)
         self.phase = "idle"    # idle | live | stopped
         self.lines = list(cfg.init) if cfg.kind == "live" else []   # current renderable (Live)
         self.status = list(cfg.init)
-        self.tasks = {}        # id -> [desc, completed, visible]   (insertion ordered)
+        self.tasks = {}        # id -> [desc, completed, visible, total]   (insertion ordered)
+        self.width = cfg.width # console width right now
+        self.spin = "⠋"        # what the Status spinner shows right now (observed: opaque)
+        self.spin_seq = None   # recorded spinner frames, one per render of the display
+        self.renders = 0
         self.table = []        # Progress: rows of the table built by the last refresh
         self.next_id = 0
         self.max_h = 0         # Progress pads its frame to the tallest one so far
@@ -49,6 +56,8 @@ class Tracker:
         self.ever_started = False
         self.restarted = False
         self.after_stop = None
+        self.buf = {False: "", True: ""}   # text pending (no final new line) in the redirected stdout / stderr
+        self.pending_at_stop = False
         self.transient_ok = True   # every transient stop so far left one free row for its line feed
 
     # the frame the user is entitled to see for the current renderable
@@ -57,23 +66,27 @@ class Tracker:
         if c.kind == "progress":
             return list(self.table)
         if c.kind == "status":
-            ls = [("⠋ " if i == 0 else "  ") + l for i, l in enumerate(self.status)]
+            ls = [((self.spin + " ") if i == 0 else "  ") + l for i, l in enumerate(self.status)]
         else:
-            ls = [l[: c.width] for l in self.lines]
+            ls = [term.crop_cells(l, self.width) for l in self.lines]
         ov = "visible" if final else self.overflow
         if len(ls) > c.height:
             if ov == "crop":
                 ls = ls[: c.height]
             elif ov == "ellipsis":
-                pad = c.width - 3
+                pad = self.width - 3
                 ls = ls[: c.height - 1] + [" " * (pad // 2) + "..." + " " * (pad - pad // 2)]
         return ls
 
     def rebuild(self):
         """Progress.refresh() rebuilds the tasks table (also while the display is not live)."""
-        self.table = [f"{d} {n}" for d, n, v in self.tasks.values() if v]
+        if not self.cfg.disable:
+            self.table = [f"{d} {n}/{t}" for d, n, v, t in self.tasks.values() if v]
 
     def display(self, final=False):
+        if self.spin_seq is not None and self.renders < len(self.spin_seq):
+            self.spin = self.spin_seq[self.renders]     # replaying recorded spinner frames (specification runs)
+        self.renders += 1
         self.F = self.frame(final)
         h = len(self.F)
         if self.cfg.kind == "progress":
@@ -93,6 +106,11 @@ class Tracker:
     def op(self, op):
         """Update for one successful operation."""
         k = op[0]
+        if self.cfg.disable and k in ("R", "A", "H", "E", "ER", "T0", "T1"):
+            # Progress(disable=True): refresh() does nothing; only the bookkeeping of the tasks happens
+            k = {"R": "nop", "A": "A-", "H": "H-", "E": "E-", "ER": "E-", "T0": "E-", "T1": "E-"}[k]
+        elif k in ("ER", "T0", "T1"):
+            k = "E"
         if self.phase == "stopped" and k in ("P", "B", "BL"):
             self.finish_session()
         live = self.phase == "live"
@@ -103,21 +121,38 @@ class Tracker:
                 self.phase = "idle"
             if self.phase == "idle":
                 self.phase = "live"
+                self.buf = {False: "", True: ""}
                 self.ever_started = True
-                if self.cfg.kind == "progress":
+                if self.cfg.kind == "progress" and not self.cfg.disable:
                     self.rebuild()
                     self.display()
+        elif k == "W":
+            err, lines, tail = op[1], op[2], op[3]
+            if live and self.cfg.terminal and (self.cfg.redirect_stderr if err else self.cfg.redirect_stdout):
+                if lines:
+                    self.P.extend([self.buf[err] + lines[0]] + list(lines[1:]))
+                    self.buf[err] = tail
+                    self.display()
+                else:
+                    self.buf[err] += tail
         elif k == "X":
             if live:
+                # what print(..., end="") left pending is completed above the display, stdout first
+                for e in (False, True):
+                    if self.buf[e]:
+                        self.pending_at_stop = True
+                        self.P.append(self.buf[e])
+                        self.buf[e] = ""
+                        self.display()      # printed like any other line: the display is redrawn below it
                 self.rebuild()
                 self.display(final=True)
                 self.final_h = self.shown_h
-                if self.cfg.transient and self.shown_h + 1 > self.cfg.height:
+                if self.cfg.transient and max(self.shown_h, 1 if BLANK_FIX else 0) + 1 > self.cfg.height:
                     self.transient_ok = False
                 self.phase = "stopped"
                 if self.cfg.transient:
-                    # nothing stays (an empty final frame still costs the line feed stop() writes)
-                    self.after_stop = [""] if self.shown_h == 0 else []
+                    # nothing stays (`left_blank`: what today's code leaves for an empty last frame, used for wf/specm only)
+                    self.after_stop = [""] if (self.shown_h == 0 and not self.blank_fix) else []
                 else:
                     # the final frame stays as finished output (Progress: padded to its tallest height)
                     self.after_stop = (self.F + [""] * (self.shown_h - len(self.F))) if self.shown_h else [""]
@@ -146,20 +181,44 @@ class Tracker:
                 self.status = list(op[1])
                 if live:
                     self.display()
-        elif k == "A":
-            self.tasks[self.next_id] = [op[1], 0, op[2]]
+        elif k in ("A", "A-"):
+            self.tasks[self.next_id] = [op[1], 0, op[2], op[3] if len(op) > 3 else 100]
             self.next_id += 1
-            self.rebuild()
-            if live:
-                self.display()
-        elif k == "V":
-            self.tasks[op[1]][1] += op[2]
-        elif k == "H":
-            self.tasks[op[1]][2] = op[2]
-            if op[3]:
+            if k == "A":
                 self.rebuild()
                 if live:
                     self.display()
+        elif k == "V":
+            self.tasks[op[1]][1] += op[2]
+        elif k in ("H", "H-"):
+            self.tasks[op[1]][2] = op[2]
+            if op[3] and k == "H":
+                self.rebuild()
+                if live:
+                    self.display()
+        elif k in ("E", "E-"):
+            t = self.tasks[op[1]]
+            o0 = op[0]
+            kw = {"total": op[2]} if o0 == "T0" else ({"advance": 1} if o0 == "T1" else dict(op[2]))
+            if o0 == "ER":
+                kw.setdefault("completed", 0)
+            if kw.get("total") is not None:
+                t[3] = kw["total"]
+            if kw.get("advance") is not None:
+                t[1] += kw["advance"]
+            if kw.get("completed") is not None:
+                t[1] = kw["completed"]
+            if kw.get("description") is not None:
+                t[0] = kw["description"]
+            if kw.get("visible") is not None:
+                t[2] = kw["visible"]
+            refresh = o0 in ("ER", "T1") or (o0 == "E" and op[3])
+            if refresh and k == "E":
+                self.rebuild()
+                if live:
+                    self.display()
+        elif k == "Z":
+            self.width = op[1]
         elif k == "D":
             del self.tasks[op[1]]
         return True
@@ -188,9 +247,12 @@ def screen_ok(cfg, scr, tr):
 def prepare(cfg, ops):
     """Attach to every P op the lines a plain console writes for it."""
     out = []
+    width = cfg.width
     for op in ops:
-        if op[0] == "P":
-            out.append(("P", op[1], op[2], L.plain_lines(cfg.width, cfg.height, cfg.color, "str" if op[2].startswith("py") else op[2], op[1])))
+        if op[0] == "Z":
+            width = op[1]
+        if op[0] == "P" and len(op) == 3:
+            out.append(("P", op[1], op[2], L.plain_lines(width, cfg.height, cfg.color, "str" if op[2].startswith("py") else op[2], op[1], cfg.terminal, cfg.dumb)))
         else:
             out.append(op)
     return out
@@ -209,8 +271,8 @@ def run_history(ctx, cfg, ops, faults=None, styled=False, evaluate=True, tag="")
     per_op = []
     written = []
     tr = Tracker(cfg)
-    scr = term.Screen(height=cfg.height)
-    evaluating = evaluate and fenc == "-"
+    scr = term.Screen(height=cfg.height, width_fn=term.wcwidth)
+    evaluating = evaluate and fenc == "-" and cfg.terminal and not cfg.dumb   # the screen property is about terminals
     fail = None
     try:
         for i, op in enumerate(ops):
@@ -222,14 +284,22 @@ def run_history(ctx, cfg, ops, faults=None, styled=False, evaluate=True, tag="")
             scr.mark()
             clamped0 = scr.clamped
             scr.feed(toks)
+            if s.spins:
+                tr.spin = s.spins[-1]
             if evaluating and err == "ok":
                 tr.op(op)
                 if not tr.fits:
                     evaluating = False
                     ctx.note("eval_stop:frame-taller-than-screen(visible)")
                     continue
+                if cfg.disable and cfg.transient and op[0] == "X" and tr.phase == "stopped":
+                    # Progress(disable=True) draws nothing, but stop() still writes its line feed, and with no frame ever
+                    # rendered there is no shape to go back up by: the property text says nothing about `disable`
+                    evaluating = False
+                    ctx.note("eval_stop:disabled-transient-progress-stop")
+                    continue
                 what = None
-                if tr.phase == "stopped" and op[0] == "X" and cfg.transient and tr.after_stop is not None and tr.final_h + 1 > cfg.height:
+                if tr.phase == "stopped" and op[0] == "X" and cfg.transient and tr.after_stop is not None and max(tr.final_h, 1) + 1 > cfg.height:
                     # the final line feed scrolls the top of a screen-filling frame out of reach
                     ok = screen_ok(cfg, scr, tr)
                     ctx.check(ok, "Live.stop(transient, frame fills the screen)", (cfg, [o[:3] for o in ops[: i + 1]]), "remnant of the transient frame: " + repr(scr.text_rows()), finding="transient-final-frame-fills-screen")
@@ -253,6 +323,7 @@ def run_history(ctx, cfg, ops, faults=None, styled=False, evaluate=True, tag="")
             elif evaluating and err != "err:KeyError":
                 evaluating = False
         ctl = s.ctl()
+        spins = "".join(s.spins)
     finally:
         s.close()
     if evaluate and fenc == "-":
@@ -263,28 +334,82 @@ def run_history(ctx, cfg, ops, faults=None, styled=False, evaluate=True, tag="")
             prefix = ops[: fail[0] + 1]
             bare = any(op[0] in ("B", "BL") for op in prefix)
             restart = any(a[0] == "X" for a in prefix) and any(b[0] == "S" for j, b in enumerate(prefix) if any(a[0] == "X" for a in prefix[:j]))
-            if bare and _passes_with(cfg, prefix, True, False):
+            if cfg.transient and not BLANK_FIX and any(a[0] == "X" for a in prefix) and _passes_with(cfg, prefix, False, False, blank=True):
+                finding = "transient-empty-frame-leaves-blank-line"
+            elif not FLUSH_FIX and any(a[0] == "W" for a in prefix) and _passes_with(cfg, prefix, False, False, flush=True):
+                finding = "pending-partial-line-flushed-after-last-frame"
+            elif bare and _passes_with(cfg, prefix, True, False):
                 finding = "bare-print-bypasses-hook"
             elif restart and _passes_with(cfg, prefix, False, True):
                 finding = "restart-stale-shape"
             elif bare and restart and _passes_with(cfg, prefix, True, True):
                 finding = "bare-print-bypasses-hook+restart-stale-shape"
         ctx.check(fail is None, f"{cfg.kind} history", (cfg, [o[:3] for o in ops[: (fail[0] + 1) if fail else 0]]), fail[1] if fail else "", finding=finding)
-    ctx.case("live_run", [cfg.enc(BARE_BYPASS, START_GUARD, RESET_SHAPE), cfg.enc_init(), fenc, enc_ops(cfg, ops)], "|".join(per_op) + "#" + ctl,
+    ctx.case("live_run", [cfg.enc(BARE_BYPASS, START_GUARD, RESET_SHAPE, BLANK_FIX, FLUSH_FIX, spins), cfg.enc_init(), fenc, enc_ops(cfg, ops)], "|".join(per_op) + "#" + ctl,
              shape=f"{cfg.kind}:{tag}", sample=f"{cfg!r} faults={fenc} ops={[o[:3] for o in ops]!r}")
     for op in ops:
         ctx.note("op:" + op[0] + (":" + op[2] if op[0] == "P" else ""))
     ctx.note(f"len:{min(len(ops) // 5 * 5, 40)}")
+    tr.spins = spins
+    if evaluate and fenc == "-" and not cfg.terminal and cfg.kind == "live":
+        _file_check(ctx, cfg, ops, "".join(written))
     return "".join(written), ops, tr
 
 
-def _passes_with(cfg, ops, replace_bare, reset_shape):
+def _file_check(ctx, cfg, ops, text):
+    """A Live writing to a file (not a terminal): what the file holds after a history without restart is the
+    printed lines and then — once, at stop, unless transient — the last frame; no control codes at all."""
+    if sum(o[0] == "S" for o in ops) > 1 and any(o[0] == "X" for o in ops):
+        return
+    tr = Tracker(cfg)
+    want = []
+    for idx, op in enumerate(ops):
+        if op[0] == "W":
+            continue              # stdout / stderr are not redirected when the console is not a terminal
+        if op[0] == "Z":
+            tr.width = op[1]
+        was_live = tr.phase == "live"
+        if op[0] == "P":
+            want += op[3]
+        elif op[0] in ("B", "BL"):
+            want.append("")
+        elif op[0] == "U":
+            tr.lines = list(op[1])
+        tr_phase_before = tr.phase
+        if op[0] in ("S", "X"):
+            tr.op(op)
+        if op[0] == "X" and was_live and not cfg.transient:
+            frame = [term.crop_cells(l, tr.width) for l in tr.lines]
+            ctx.note("file:final-frame")
+            want_text = "".join(l + "\n" for l in want) + "\n".join(frame)
+            want = None
+            rest = [o for o in ops[idx + 1:] if o[0] in ("P", "B", "BL")]
+            want_text += "".join(l + "\n" for o in rest for l in (o[3] if o[0] == "P" else [""]))
+            ctx.check(text == want_text and "\x1b" not in text, "Live on a file", (cfg, [o[:3] for o in ops]),
+                      f"file holds {text!r}, expected {want_text!r}")
+            return
+    want_text = "".join(l + "\n" for l in want)
+    ctx.check(text == want_text and "\x1b" not in text, "Live on a file", (cfg, [o[:3] for o in ops]), f"file holds {text!r}, expected {want_text!r}")
+
+
+def _passes_with(cfg, ops, replace_bare, reset_shape, blank=False, flush=False):
     ops2 = [("P", [""], "seg", [""]) if (replace_bare and op[0] in ("B", "BL")) else op for op in ops]
     s = L.Session(cfg)
     tr = Tracker(cfg, reset_shape=reset_shape or RESET_SHAPE)
-    scr = term.Screen(height=cfg.height)
+    scr = term.Screen(height=cfg.height, width_fn=term.wcwidth)
+    if blank:
+        # counterfactual: restore_cursor() goes up at least one row
+        from rich.control import Control
+        lr = s.live_obj()._live_render
+        lr.restore_cursor = lambda: Control("") if lr._shape is None else Control("\r" + "\x1b[1A\x1b[2K" * max(lr._shape[1], 1))
     try:
         for op in ops2:
+            if flush and op[0] == "X":
+                # counterfactual: stop() flushes the proxies before its last refresh
+                import sys as _sys
+                for stream in (_sys.stdout, _sys.stderr):
+                    if isinstance(stream, L.FileProxy):
+                        stream.flush()
             err, chars = s.apply_catch(op)
             if reset_shape and op[0] == "X":
                 s.live_obj()._live_render._shape = None
@@ -297,6 +422,8 @@ def _passes_with(cfg, ops, replace_bare, reset_shape):
                 continue
             if err != "ok":
                 return False
+            if s.spins:
+                tr.spin = s.spins[-1]
             tr.op(op)
             if not screen_ok(cfg, scr, tr) or scr.clamped or (scr.min_row_since_mark < top_before and tr.phase != "idle"):
                 return False
@@ -305,10 +432,11 @@ def _passes_with(cfg, ops, replace_bare, reset_shape):
         s.close()
 
 
-def spec_case(ctx, cfg, ops):
+def spec_case(ctx, cfg, ops, spins=""):
     """Lean `wf / printed / lastFrame` (what the theorems talk about) vs the Python tracker, on a fault-free
     history in which `stop` is last or absent."""
     tr = Tracker(cfg)
+    tr.spin_seq = spins if cfg.kind == "status" else None
     ok = True
     for i, op in enumerate(ops):
         try:
@@ -317,24 +445,25 @@ def spec_case(ctx, cfg, ops):
             tr.op(op)
         except KeyError:
             return  # an operation raising KeyError: not wf, and the tracker has nothing to say
-    wf = ok and tr.fits and cfg.height >= 1
+    wf = ok and tr.fits and cfg.height >= 1 and not tr.pending_at_stop and cfg.terminal and not cfg.dumb and not cfg.disable
     if wf and tr.phase == "stopped" and cfg.transient:
-        wf = tr.final_h + 1 <= cfg.height
+        wf = max(tr.final_h, 1 if BLANK_FIX else 0) + 1 <= cfg.height
     if not wf:
         return False, [], []
     F = tr.F if cfg.kind == "live" else trim(tr.F)
     return wf, tr.P, F
 
 
-def specm_case(cfg, ops):
+def specm_case(cfg, ops, spins=""):
     """Multi-session specification (Lean `wfM / finished / liveFrameOf`) from the independent tracker."""
-    tr = Tracker(cfg, reset_shape=1)
+    tr = Tracker(cfg, reset_shape=1, blank_fix=bool(BLANK_FIX))
+    tr.spin_seq = spins if cfg.kind == "status" else None
     for op in ops:
         try:
             tr.op(op)
         except KeyError:
             return None
-    wf = tr.fits and tr.transient_ok and cfg.height >= 1
+    wf = tr.fits and tr.transient_ok and cfg.height >= 1 and not tr.pending_at_stop and cfg.terminal and not cfg.dumb and not cfg.disable
     if not wf:
         return "0;0:"
     rows = tr.P + (tr.after_stop if tr.after_stop is not None else tr.F)
@@ -343,7 +472,7 @@ def specm_case(cfg, ops):
 
 def with_case(ctx, cfg, ops, faults, raise_at):
     ops = prepare(cfg, ops)
-    chars, raised, ctl, restored, exc = L.run_with(cfg, ops, faults, raise_at)
+    chars, raised, ctl, restored, exc, spins = L.run_with(cfg, ops, faults, raise_at)
     fenc = faults.enc()
     scr = term.replay(chars, cfg.height)
     # direct evaluation of `cleanup_on_exception`
@@ -358,7 +487,7 @@ def with_case(ctx, cfg, ops, faults, raise_at):
     injected = raise_at is not None and raise_at <= len(ops)
     if injected and exc is None:
         ctx.check(False, f"with {cfg.kind}: propagation", (cfg, [o[:3] for o in ops], fenc, raise_at), "the exception raised by the body did not leave the block")
-    ctx.case("live_with", [cfg.enc(BARE_BYPASS, START_GUARD, RESET_SHAPE), cfg.enc_init(), fenc, enc_ops(cfg, ops), enc_opt(raise_at)],
+    ctx.case("live_with", [cfg.enc(BARE_BYPASS, START_GUARD, RESET_SHAPE, BLANK_FIX, FLUSH_FIX, spins), cfg.enc_init(), fenc, enc_ops(cfg, ops), enc_opt(raise_at)],
              L.enc_tokens(term.tokenize(chars)) + "#" + enc_bool(raised) + "#" + ctl, shape=f"{cfg.kind}:{'fault' if fenc != '-' else 'body'}",
              sample=f"with {cfg!r}: ops={[o[:3] for o in ops]!r} faults={fenc} raise_at={raise_at}")
 
@@ -381,6 +510,9 @@ def frames_pool(W, H):
         [f"r{i}" for i in range(H + 1)],
         [f"t{i}" for i in range(H + 3)],
         ["long" * 3, "z"],
+        ["あい", "aあ"],                      # double-width characters
+        ["a" + "あ" * (W // 2 + 1), "日本"],    # ... one of them straddling the right edge when cropped
+        ["あ" * (W // 2 + 2)],
     ]
 
 
@@ -391,6 +523,8 @@ def user_pool(W):
         ([""], "seg"),
         (["w" * (W + 2)], "seg"),
         (["plain"], "str"),
+        (["日本語 ok"], "seg"),
+        (["x" + "あ" * (W // 2 + 1)], "seg"),
         (["[bold]mark[/bold]up"], "str"),
         (["logged"], "log"),
         (["via", "stdout"], "py"),
@@ -398,7 +532,10 @@ def user_pool(W):
     ]
 
 
-def rand_ops(rng, cfg, n, allow_bare, session=True, split_writes=True):
+LONG = "abcdefghijklmnopqr"
+
+
+def rand_ops(rng, cfg, n, allow_bare, session=True, split_writes=True, resize=True):
     """Seeded structured history.  `session`: start early, stop last (mostly); otherwise anything goes."""
     W, H = cfg.width, cfg.height
     fp = frames_pool(W, H)
@@ -408,50 +545,105 @@ def rand_ops(rng, cfg, n, allow_bare, session=True, split_writes=True):
     stopped = False
     ids = []
     next_id = 0
+    pend = {False: 0, True: 0}   # upper bound of what is pending in the stdout / stderr proxy
+    tasks = {}                   # id -> [description, visible]  (what the generator needs to keep rows within the width)
+    tracked = set()
+    curw = W                     # the narrowest the console has been
     for i in range(n):
         r = rng.random()
         if session and not started and not stopped and r < 0.5:
-            ops.append(("S",)); started = True
+            ops.append(("S",)); started = True; pend = {False: 0, True: 0}
             continue
         if not session and r < 0.08:
-            ops.append(("S",)); started, stopped = True, False
+            ops.append(("S",)); started, stopped = True, False; pend = {False: 0, True: 0}
             continue
         if not session and r < 0.14:
-            ops.append(("X",)); started = False; stopped = True
+            ops.append(("X",)); started = False; stopped = True; pend = {False: 0, True: 0}
             continue
         if r < 0.30:
             lines, how = rng.choice(up)
-            if how == "py" and not (started and cfg.redirect_stdout):
-                how = "str"
-            if how == "pye" and not (started and cfg.redirect_stderr):
-                how = "str"
             if how == "log" and rng.random() < 0.6:
                 how = "seg"
-            if how == "py" and split_writes and rng.random() < 0.4:
-                # the same through two writes: the second line only completes with the second write
-                ops.append(("P", lines, "py1"))
-                ops.append(("P", [L.PENDING], "py2"))
+            if how in ("py", "pye") and pend[how == "pye"] + len(lines[0]) > curw:
+                how = "seg"      # the stream writes are not wrapped by the harness: keep them within the width
+            if how in ("py", "pye"):
+                # the same as raw writes to the stream: complete lines, then (sometimes) text without a new line
+                # that a later write completes — or that is still pending when the display stops
+                err = how == "pye"
+                if split_writes and pend[err] + 10 <= curw and rng.random() < 0.6:
+                    ops.append(("W", err, list(lines), "ta"))
+                    pend[err] = 2
+                    if rng.random() < 0.75:
+                        more = rng.random() < 0.3 and pend[err] + 12 <= curw
+                        ops.append(("W", err, [] if more else ["il"], "ta" if more else ""))
+                        pend[err] = 4 if more else 0
+                else:
+                    ops.append(("W", err, list(lines), ""))
+                    pend[err] = 0
             else:
                 ops.append(("P", lines, how))
         elif r < 0.36 and allow_bare:
             ops.append(("B",) if rng.random() < 0.6 else ("BL",))
         elif r < 0.50:
             ops.append(("R",))
+        elif r < 0.53 and resize:
+            # the console width changes between refreshes
+            if cfg.kind == "live":
+                w = rng.choice([8, 12, 20, 30])
+            elif cfg.kind == "status":
+                w = rng.choice([16, 20, 30])
+            else:
+                w = rng.choice([20, 24, 30])
+                if w < 30 and any(len(d) > 8 and v for d, v in tasks.values()):
+                    w = 30       # a long row must fit (Rich would wrap it: outside the model)
+            if max(pend.values()) > 0:
+                w = max(w, 16)   # what is pending in a proxy plus the line that completes it must still fit
+            ops.append(("Z", w))
+            curw = min(curw, w)
         elif cfg.kind == "live":
             ops.append(("U", rng.choice(fp), rng.random() < 0.6))
         elif cfg.kind == "status":
-            ops.append(("U", rng.choice([["work"], ["more", "lines"], ["a", "bb", "ccc"], ["x"]]), True))
+            ops.append(("U", rng.choice([["work"], ["more", "lines"], ["a", "bb", "ccc"], ["x"], ["あ", "b"]]), True))
         else:
             q = rng.random()
-            if q < 0.35 or not ids:
-                ops.append(("A", rng.choice(["ab", "cdef", "g", "task"]), rng.random() < 0.85))
-                ids.append(next_id); next_id += 1
-            elif q < 0.55:
+            short = ["ab", "cdef", "g", "task", "あい"]
+            wide_ok = curw >= 30 and not any(o[0] == "Z" for o in ops)
+            if q < 0.25 or not ids:
+                d = LONG if (wide_ok and rng.random() < 0.25) else rng.choice(short)
+                vis = rng.random() < 0.85
+                ops.append(("A", d, vis, rng.choice([100, 100, 50, 5])))
+                ids.append(next_id); tasks[next_id] = [d, vis]; next_id += 1
+            elif q < 0.40:
                 ops.append(("V", rng.choice(ids), rng.choice([1, 3, 10])))
-            elif q < 0.8:
-                ops.append(("H", rng.choice(ids), rng.random() < 0.5, rng.random() < 0.6))
-            elif q < 0.9:
-                j = rng.choice(ids); ids.remove(j)
+            elif q < 0.55:
+                j = rng.choice(ids)
+                vis = rng.random() < 0.5 and (len(tasks[j][0]) <= 8 or wide_ok)
+                ops.append(("H", j, vis, rng.random() < 0.6)); tasks[j][1] = vis
+            elif q < 0.66:
+                j = rng.choice(ids)
+                kw = {}
+                if rng.random() < 0.4: kw["total"] = rng.choice([5, 50, 100])
+                if rng.random() < 0.4: kw["advance"] = rng.choice([1, 2])
+                if rng.random() < 0.3: kw["completed"] = rng.choice([0, 7, 42])
+                if rng.random() < 0.4: kw["description"] = rng.choice(short); tasks[j][0] = kw["description"]
+                if rng.random() < 0.3 and len(tasks[j][0]) <= 8: kw["visible"] = rng.random() < 0.6; tasks[j][1] = kw["visible"]
+                ops.append(("E", j, kw, rng.random() < 0.5))
+            elif q < 0.72:
+                j = rng.choice(ids)
+                kw = {}
+                if rng.random() < 0.4: kw["total"] = rng.choice([5, 50])
+                if rng.random() < 0.3: kw["completed"] = rng.choice([1, 9])
+                if rng.random() < 0.3: kw["description"] = rng.choice(short); tasks[j][0] = kw["description"]
+                ops.append(("ER", j, kw))
+            elif q < 0.78:
+                j = rng.choice(ids)
+                ops.append(("T0", j, rng.choice([2, 3])))
+                tracked.add(j)
+            elif q < 0.86:
+                j = rng.choice(sorted(tracked)) if tracked else rng.choice(ids)
+                ops.append(("T1", j) if j in tracked else ("V", j, 1))
+            elif q < 0.93:
+                j = rng.choice(ids); ids.remove(j); tasks.pop(j, None); tracked.discard(j)
                 ops.append(("D", j))
             else:
                 ops.append(("V", next_id + 5, 1) if rng.random() < 0.5 else ("D", next_id + 7))  # unknown id -> KeyError
@@ -479,6 +671,27 @@ def corpus():
         (L.Cfg("status", True, 20, 10, init=["a", "b", "c"]), [("P", ["p1"], "seg"), ("P", ["p2"], "seg"), ("S",), ("R",), ("X",), ("S",), ("R",), ("X",)]),
         # overflow mode after a restart: the configured crop must still apply
         (L.Cfg("live", False, 20, 2, overflow="crop", init=["1"]), [("S",), ("R",), ("X",), ("S",), ("U", ["a", "b", "c"], True), ("P", ["x"], "seg"), ("X",)]),
+        # text without a new line pending in the redirected stdout / stderr when the display stops
+        (L.Cfg("live", False, 30, 8, init=["F1", "F2"]), [("S",), ("R",), ("W", False, [], "Downloading..."), ("X",)]),
+        (L.Cfg("live", True, 30, 8, init=["F1", "F2"]), [("S",), ("R",), ("W", True, ["done"], "more"), ("X",)]),
+        (L.Cfg("progress", False, 30, 8), [("A", "task", True), ("S",), ("W", False, [], "working"), ("X",)]),
+        # a transient display whose last frame is empty, followed by more output
+        (L.Cfg("live", True, 20, 6, init=[]), [("S",), ("P", ["a"], "seg"), ("X",), ("P", ["b"], "seg")]),
+        (L.Cfg("progress", True, 20, 6), [("S",), ("P", ["a"], "seg"), ("X",), ("P", ["b"], "seg")]),
+        # the console gets narrower than the widest frame so far (LiveRender: min(max_width, previous width))
+        (L.Cfg("progress", False, 30, 7), [("A", LONG, True, 100), ("S",), ("H", 0, False, True), ("Z", 20), ("A", "ab", True, 100), ("P", ["x"], "seg"), ("X",)]),
+        (L.Cfg("live", False, 30, 7, init=["w" * 28, "b"]), [("S",), ("R",), ("Z", 12), ("R",), ("P", ["x"], "seg"), ("Z", 30), ("R",), ("X",)]),
+        # Progress(disable=True): nothing is drawn, whatever happens to the tasks
+        (L.Cfg("progress", False, 30, 7, disable=True), [("A", "ab", True, 100), ("S",), ("R",), ("P", ["x"], "seg"), ("V", 0, 3), ("R",), ("P", ["y"], "seg"), ("X",)]),
+        # a file / a dumb terminal: the last frame is written once, at stop, unless transient
+        (L.Cfg("live", False, 30, 7, init=["F1", "F2"], terminal=False), [("S",), ("R",), ("P", ["x"], "seg"), ("U", ["G1"], True), ("X",), ("P", ["y"], "seg")]),
+        (L.Cfg("live", True, 30, 7, init=["F1", "F2"], terminal=False), [("S",), ("R",), ("P", ["x"], "seg"), ("X",)]),
+        (L.Cfg("live", False, 30, 7, init=["F1", "F2"], dumb=True), [("S",), ("R",), ("P", ["x"], "seg"), ("U", ["G1"], True), ("X",)]),
+        (L.Cfg("progress", False, 30, 7, terminal=False), [("A", "ab", True, 100), ("S",), ("R",), ("P", ["x"], "seg"), ("X",)]),
+        (L.Cfg("progress", False, 30, 7, dumb=True), [("A", "ab", True, 100), ("S",), ("R",), ("P", ["x"], "seg"), ("X",)]),
+        # Progress.update / reset / track
+        (L.Cfg("progress", False, 30, 7), [("A", "ab", True, 100), ("S",), ("E", 0, {"total": 5, "advance": 2, "completed": 7, "description": "cd"}, True),
+                                            ("ER", 0, {"total": 50}), ("T0", 0, 2), ("T1", 0), ("T1", 0), ("T1", 0), ("X",)]),
         # a transient display whose last frame fills the screen
         (L.Cfg("live", True, 12, 2, overflow="crop", init=["a", "b"]), [("S",), ("R",), ("X",)]),
         (L.Cfg("progress", True, 20, 2), [("A", "aa", True), ("A", "bb", True), ("S",), ("X",)]),
@@ -497,12 +710,22 @@ def configs(rng, quick):
     return out
 
 
-def make_cfg(rng, kind, transient, ov, W, H, vary=True):
+def make_cfg(rng, kind, transient, ov, W, H, vary=True, consoles=False):
     init = rng.choice(frames_pool(W, H)) if kind == "live" else (rng.choice([["work"], ["two", "lines"]]) if kind == "status" else [])
+    terminal, dumb, disable = True, False, False
+    if consoles:
+        # the other consoles: a file, a dumb terminal; a disabled Progress
+        c = rng.random()
+        if c < 0.35:
+            terminal = False
+        elif c < 0.6:
+            dumb = True
+        disable = kind == "progress" and (c >= 0.6 or rng.random() < 0.3)
     return L.Cfg(kind, transient, W, H, overflow=ov,
                  redirect_stdout=(rng.random() < 0.8) if vary else True,
                  redirect_stderr=(rng.random() < 0.8) if vary else True,
-                 color=rng.choice([None, "standard"]) if vary else None, init=init)
+                 color=rng.choice([None, "standard"]) if vary else None, init=init,
+                 terminal=terminal, dumb=dumb, disable=disable)
 
 
 def run(ctx):
@@ -538,7 +761,7 @@ def run(ctx):
         elif kind == "status":
             alpha = [("P", ["u"], "seg"), ("R",), ("U", ["more", "lines"], True), ("U", ["x"], True), ("S",)]
         else:
-            alpha = [("P", ["u"], "seg"), ("R",), ("A", "ab", True), ("A", "cdef", False), ("V", 0, 3), ("H", 0, False, True), ("H", 0, True, False), ("D", 0), ("S",)]
+            alpha = [("P", ["u"], "seg"), ("R",), ("A", "ab", True, 100), ("A", "cdef", False, 5), ("V", 0, 3), ("H", 0, False, True), ("E", 0, {"description": "xy", "total": 50}, True), ("ER", 0, {}), ("D", 0), ("S",)]
         for d in range(depth + 1):
             for body in itertools.product(alpha, repeat=d):
                 if ctx.quick and d == depth and rng.random() < 0.6:
@@ -565,8 +788,8 @@ def run(ctx):
         if j % 4 == 0:
             outputs.append((cfg.height, chars))
         if not any(o[0] == "X" for o in pops[:-1]):
-            spec_batch.append((cfg, pops))
-        specm_batch.append((cfg, pops))
+            spec_batch.append((cfg, pops, tr.spins))
+        specm_batch.append((cfg, pops, tr.spins))
     # arbitrary histories (restarts, stop in the middle, faults with try/except around every op): correspondence only
     for j in range(n_rand // 2):
         kind, transient, ov, W, H = rng.choice(cfgs)
@@ -574,40 +797,48 @@ def run(ctx):
         # (argument-less prints are mixed with restarts only once F19 is repaired: one cause per failing history)
         ops = rand_ops(rng, cfg, rng.randint(1, 40), BARE_BYPASS == 0 and rng.random() < 0.3, session=False)
         fl = L.Faults(exact=rng.sample(range(30), rng.randint(0, 4)), from_=rng.choice([None, None, rng.randint(0, 30)])) if kind != "status" and rng.random() < 0.6 else None
-        chars, pops, _ = run_history(ctx, cfg, ops, faults=fl, evaluate=fl is None, tag="arbitrary")
+        chars, pops, tr = run_history(ctx, cfg, ops, faults=fl, evaluate=fl is None, tag="arbitrary")
         if j % 4 == 0:
             outputs.append((cfg.height, chars))
         if fl is None:
-            specm_batch.append((cfg, pops))
+            specm_batch.append((cfg, pops, tr.spins))
+    # the other consoles — a file, a dumb terminal — and Progress(disable=True): correspondence, and for a Live on a
+    # file the direct check that the file holds the printed lines and (once, at stop) the last frame
+    for j in range(n_rand // 3):
+        kind, transient, ov, W, H = rng.choice(cfgs)
+        cfg = make_cfg(rng, kind, transient, ov, W, H, consoles=True)
+        ops = rand_ops(rng, cfg, rng.randint(1, 30), BARE_BYPASS == 0 and rng.random() < 0.2, session=rng.random() < 0.7)
+        fl = L.Faults(exact=rng.sample(range(20), rng.randint(0, 3))) if kind != "status" and rng.random() < 0.3 else None
+        run_history(ctx, cfg, ops, faults=fl, evaluate=fl is None, tag="consoles:" + ("file" if not cfg.terminal else "dumb" if cfg.dumb else "disable" if cfg.disable else "plain"))
     ctx.flush()
 
     # ---- 3. Lean replay vs Python screen oracle on the real streams (+ a few synthetic ones)
     for H, chars in outputs:
-        scr = term.replay(chars, H)
+        scr = term.replay(chars, H, width_fn=term.wcwidth)
         ctx.case("term_replay", [H, L.enc_tokens(term.tokenize(chars))],
                  enc_str_list(scr.text_rows()) + f";{scr.row};{scr.col};{enc_bool(scr.visible)}", shape="stream")
     for _ in range(300 if ctx.quick else 5000):
         H = rng.randint(1, 5)
         toks = []
         for _ in range(rng.randint(0, 25)):
-            toks.append(rng.choice([("T", rng.choice(["a", "bc", "   ", "xyz"])), ("LF",), ("LF",), ("CR",), ("CUU", rng.choice([0, 1, 1, 2, 5])), ("EL2",), ("SHOW",), ("HIDE",)]))
-        scr = term.Screen(height=H).feed(toks)
+            toks.append(rng.choice([("T", rng.choice(["a", "bc", "   ", "xyz", "あ", "aあb"])), ("LF",), ("LF",), ("CR",), ("CUU", rng.choice([0, 1, 1, 2, 5])), ("EL2",), ("SHOW",), ("HIDE",)]))
+        scr = term.Screen(height=H, width_fn=term.wcwidth).feed(toks)
         ctx.case("term_replay", [H, L.enc_tokens(toks)], enc_str_list(scr.text_rows()) + f";{scr.row};{scr.col};{enc_bool(scr.visible)}", shape="synthetic")
     ctx.flush()
 
     # ---- 4. the specification the theorems are stated with == the tracker used for direct evaluation
-    for cfg, pops in spec_batch:
-        r = spec_case(ctx, cfg, pops)
+    for cfg, pops, spins in spec_batch:
+        r = spec_case(ctx, cfg, pops, spins)
         if r is None:
             continue
         wf, P, F = r
-        ctx.case("live_spec", [cfg.enc(0, START_GUARD, RESET_SHAPE), cfg.enc_init(), enc_ops(cfg, pops)], _SpecAnswer(wf, P, F, cfg.kind), shape=f"{cfg.kind}:wf{int(wf)}")
+        ctx.case("live_spec", [cfg.enc(0, START_GUARD, RESET_SHAPE, BLANK_FIX, FLUSH_FIX, spins), cfg.enc_init(), enc_ops(cfg, pops)], _SpecAnswer(wf, P, F, cfg.kind), shape=f"{cfg.kind}:wf{int(wf)}")
     ctx.flush()
 
-    for cfg, pops in specm_batch + [(c, prepare(c, o)) for c, o in corpus()]:
-        ans = specm_case(cfg, pops)
+    for cfg, pops, spins in specm_batch + [(c, prepare(c, o), "") for c, o in corpus() if c.kind != "status"]:
+        ans = specm_case(cfg, pops, spins)
         if ans is not None:
-            ctx.case("live_specm", [cfg.enc(0, START_GUARD, 1), cfg.enc_init(), enc_ops(cfg, pops)], ans, shape=f"{cfg.kind}:wf{ans[0]}:{'multi' if sum(o[0] == 'X' for o in pops) > 1 else 'single'}")
+            ctx.case("live_specm", [cfg.enc(0, START_GUARD, 1, BLANK_FIX, FLUSH_FIX, spins), cfg.enc_init(), enc_ops(cfg, pops)], ans, shape=f"{cfg.kind}:wf{ans[0]}:{'multi' if sum(o[0] == 'X' for o in pops) > 1 else 'single'}")
     ctx.flush()
 
     # ---- 5. exceptions: every render-call index and every block position
@@ -688,7 +919,7 @@ def _progress_prestart(ctx, cfg, rng):
             finding = "progress-start-refresh-raises-leaks"
         ctx.check(restored and scr.visible, "with progress (tasks added before the block): cleanup", (cfg, pre, [o[:3] for o in body], faults.enc()),
                   f"after the block: io/hook restored = {restored}, cursor visible = {scr.visible}, exception = {type(exc).__name__ if exc else None}", finding=finding)
-        ctx.case("live_pre_with", [cfg.enc(BARE_BYPASS, START_GUARD, RESET_SHAPE), cfg.enc_init(), faults.enc(), enc_ops(cfg, pre), enc_ops(cfg, body), "-"],
+        ctx.case("live_pre_with", [cfg.enc(BARE_BYPASS, START_GUARD, RESET_SHAPE, BLANK_FIX, FLUSH_FIX), cfg.enc_init(), faults.enc(), enc_ops(cfg, pre), enc_ops(cfg, body), "-"],
                  L.enc_tokens(term.tokenize(chars)) + "#" + enc_bool(exc is not None) + "#" + ctl, shape="leak" if not restored else "clean",
                  sample=f"{cfg!r}: {pre!r}; with progress: {[o[:3] for o in body]!r} faults={faults.enc()}")
         ctx.note("prestart:" + ("leak" if not restored else "clean"))
